@@ -15,7 +15,7 @@ PROPS = {
         "variants": REL,
         "log": True,
         "py": "pymon.c01check",
-        "budget_s": (25, 1500),
+        "budget_s": (25, 300),
         "min_nontrivial": {"quick": 2000, "thorough": 20000},
         "rule": "Typed random programs over the classic operator set (opcodes 1-36 without 29/30; non-canonical ints, leading-zero paths, ((X) . raw) forms, recursion/accumulator loops, unknown multi-byte opcodes, softfork guards, structural mutations) and "
                 "directed interpreter corner cases, run by the real interpreter with default flags at budget 5e7 and at {C, C-1, C+1, random}; every logged run is replayed by pymon/refclvm.py (independent interpreter after the historical Python clvm with the named "
@@ -26,7 +26,7 @@ PROPS = {
     },
     "C02": {
         "variants": REL,
-        "budget_s": (30, 1500),
+        "budget_s": (30, 300),
         "min_nontrivial": {"quick": 500, "thorough": 5000},
         "must_observe": ["exhaustive_budget_sweeps", "exempt_guard_entered", "cost_above_2^62"],
         "rule": PROG + "x random flag sets, plus directed programs whose last operation or an operator-internal cost check crosses the budget and unknown-extension softforks with declared costs around 2^62, 2^63 and 2^64 (probed at u64::MAX instead of the 5e7 stand-in). "
@@ -37,7 +37,7 @@ PROPS = {
     },
     "C03": {
         "variants": REL,
-        "budget_s": (30, 1500),
+        "budget_s": (30, 300),
         "min_nontrivial": {"quick": 500, "thorough": 5000},
         "must_observe": ["variant_reencoded", "variant_history", "history_failed_run_with_validated_points"],
         "rule": PROG + "and directed operator programs over an env of non-canonical/boundary atoms. Baseline = fresh allocator, new_atom storage. Variants: every atom "
@@ -51,7 +51,7 @@ PROPS = {
         "variants": {"quick": ["rel", "nofast", "diag"], "thorough": ["rel", "nofast", "diag"]},
         "log": True,
         "py_multi": "pymon.c05check",
-        "budget_s": (25, 1200),
+        "budget_s": (25, 300),
         "min_nontrivial": {"quick": 20000, "thorough": 200000},
         "must_observe": ["kind_op", "kind_prog", "kind_path", "log:boundary_rows", "log:sha256_precomputed_rows", "log:path_rows", "log:pre_eval_callbacks", "log:counters_runs"],
         "rule": "The same seeded workload runs in three builds of the library (default, --features no-fastpath, --features counters,pre-eval with an observe-only pre/post-eval callback): (a) + - * > = logand sha256 on every pair (and triples, pairs at every position) of "
@@ -62,7 +62,7 @@ PROPS = {
     },
     "C06": {
         "variants": REL,
-        "budget_s": (25, 1200),
+        "budget_s": (25, 300),
         "min_nontrivial": {"quick": 2000, "thorough": 20000},
         "rule": "Direct calls of op_div/op_divmod/op_mod/op_modpow with generated argument lists (0-5 args, zero in both encodings, negatives, redundant leading 0x00/0xff, "
                 "operands up to 4000 bytes, pairs at each position, improper tails, all atom representations) under random flag sets F vs F|MALACHITE and budgets, plus typed programs "
@@ -71,7 +71,7 @@ PROPS = {
     },
     "C07": {
         "variants": REL,
-        "budget_s": (25, 1200),
+        "budget_s": (25, 300),
         "min_nontrivial": {"quick": 2000, "thorough": 20000},
         "must_observe": ["restriction_turned_success_into_failure"],
         "rule": PROG + "and directed programs at the LIMITS/DISABLE_OP/CANONICAL_INTS/LIMIT_SOFTFORK thresholds. For random base F and restriction subset R (single flags, subsets, all of MEMPOOL_MODE; "
@@ -81,7 +81,7 @@ PROPS = {
     },
     "C08": {
         "variants": REL,
-        "budget_s": (30, 1500),
+        "budget_s": (30, 300),
         "min_nontrivial": {"quick": 500, "thorough": 5000},
         "must_observe": ["guards_entered_in_successful_aware_runs", "successful_runs_with_4byte_secp_opcode"],
         "rule": PROG + "(softfork profile: guards for ext 0/1 with exact measured declared cost, nested/sequential/malformed guards, unknown extensions, valid and corrupted secp triples behind the 4-byte opcodes) "
@@ -93,7 +93,7 @@ PROPS = {
         "variants": REL,
         "log": True,
         "py": "pymon.c09check",
-        "budget_s": (25, 1500),
+        "budget_s": (25, 300),
         "exhaustive_key": "log:exhaustive_opcodes",
         "min_nontrivial": {"quick": 5000, "thorough": 50000},
         "must_observe": ["log:exhaustive_opcodes", "log:overflow_corner_cases", "expected_fail:product exceeds 2^32-1", "expected_fail:reserved", "expected_fail:pair argument", "expected_fail:cost", "expected_fail:strict mode"],
@@ -106,7 +106,7 @@ PROPS = {
         "variants": REL,
         "log": True,
         "py": "pymon.c10check",
-        "budget_s": (25, 1500),
+        "budget_s": (25, 300),
         "min_nontrivial": {"quick": 5000, "thorough": 50000},
         "must_observe": ["log:program_level_calls", "new:sha256tree", "old:sha256tree", "new:modpow", "old:*", "new:bls_verify"],
         "rule": "Every ChiaDialect operator called directly on signature-aware argument lists (sizes 0..MBs, leading zeros, negatives, long lists, DAG arguments for sha256tree) under {old,new} cost model x {num-bigint, MALACHITE}, plus (op (q . a)...) through run_program. For every "
@@ -116,7 +116,7 @@ PROPS = {
     },
     "C11": {
         "variants": REL,
-        "budget_s": (25, 1200),
+        "budget_s": (25, 300),
         "min_nontrivial": {"quick": 2000, "thorough": 20000},
         "rule": PROG + "and direct calls of every ChiaDialect operator on signature-aware argument lists, each under F and F|NEW_COST_MODEL. When both succeed the result trees must be identical. "
                 "Non-trivial: both succeed and the costs differ.",
@@ -124,7 +124,7 @@ PROPS = {
     },
     "C12": {
         "variants": {"quick": ["rel", "dbg"], "thorough": ["rel", "dbg", "miri"]},
-        "budget_s": (25, 1200),
+        "budget_s": (25, 300),
         "min_nontrivial": {"quick": 2000, "thorough": 20000},
         "must_observe": ["restores", "maybe_restore_replace", "maybe_restore_noreplace", "substr_of_inline_atom", "substr_of_heap_atom"],
         "rule": "Random histories (10-2000 operations) over the public allocator API: new_atom, new_small_number, new_number/new_malachite_number/new_u64/new_i64, new_pair, new_substr (valid and invalid bounds, "
@@ -134,20 +134,20 @@ PROPS = {
         "assumptions": COMMON_ASSUMPTIONS + ["API preconditions respected: LIFO checkpoints, nodes created after a restored checkpoint are dead, concat size equals the sum of its terms"],
     },
     "C13": {
-        "variants": {"quick": ["rel", "dbg"], "thorough": ["rel", "dbg"]},
-        "budget_s": (30, 1500),
+        "variants": {"quick": ["rel", "dbg", "diag"], "thorough": ["rel", "dbg", "diag"]},
+        "budget_s": (30, 300),
         "min_nontrivial": {"quick": 2000, "thorough": 20000},
-        "must_observe": ["alloc_failed_OutOfMemory", "alloc_failed_TooManyAtoms", "alloc_failed_TooManyPairs", "gc_runs_compared_with_plain_runs", "program_sweeps_heap", "program_sweeps_atoms", "program_sweeps_pairs", "decoder_sweeps"],
+        "must_observe": ["alloc_failed_OutOfMemory", "alloc_failed_TooManyAtoms", "alloc_failed_TooManyPairs", "gc_runs_compared_with_plain_runs", "per_step_count_samples", "program_sweeps_heap", "program_sweeps_atoms", "program_sweeps_pairs", "decoder_sweeps"],
         "rule": "(1) Lock-step histories: the same random allocator history runs on an allocator with a 1-600 byte heap limit and atom/pair counters pre-loaded (add_ghost_*) to 0-40 from 62,500,000, and on an unlimited shadow; "
                 "the shadow's measured deltas predict for every operation whether the limited one must succeed or fail and with which error; after every op counts<=caps, failed ops leave counts and all live node contents unchanged. "
                 "(2) Headroom sweeps of whole programs: for heap/atoms/pairs every room d in 0..need+2 is run; success set must be upward closed, failures must carry the matching error, successes equal the unlimited result, and "
                 "for guard-free programs the minimal room equals the final delta; the swept programs include the directed set that forces every outcome of a reclaiming restore, and a run with ENABLE_GC must report the same final counts as the same run without it "
-                "(so the counts the caps are enforced on are the real usage; runs with an inline-substring copy are left to the recorded C12/C04 finding). (3) node_from_bytes_backrefs and the legacy decoder swept together around the pair cap. Non-trivial: a sweep/history saw both a limit failure and a success next to the cap.",
+                "(so the counts the caps are enforced on are the real usage; in the diagnostics build (pre-eval feature) an observe-only pre/post-eval callback samples the counts at every evaluation step of every limited run and the peak must stay within the caps, which also covers allocations that a softfork guard later rolls back; runs with an inline-substring copy are left to the recorded C12/C04 finding). (3) node_from_bytes_backrefs and the legacy decoder swept together around the pair cap. Non-trivial: a sweep/history saw both a limit failure and a success next to the cap.",
         "assumptions": COMMON_ASSUMPTIONS + ["'would exceed the cap' is judged with the allocator's own per-operation deltas measured on an unlimited twin (the accounting itself is C12's subject)"],
     },
     "C14": {
         "variants": {"quick": ["rel", "dbg"], "thorough": ["rel", "dbg", "miri"]},
-        "budget_s": (25, 1200),
+        "budget_s": (25, 300),
         "exhaustive_key": "exhaustive_byte_strings",
         "min_nontrivial": {"quick": 2000, "thorough": 20000},
         "must_observe": ["exhaustive_byte_strings", "restores", "maybe_restore_replace"],
@@ -159,7 +159,7 @@ PROPS = {
     },
     "C15": {
         "variants": REL,
-        "budget_s": (30, 1500),
+        "budget_s": (30, 300),
         "min_nontrivial": {"quick": 2000, "thorough": 20000},
         "must_observe": ["converse_decodable_and_canonical", "boundary_atom_len_0x2000", "boundary_atom_len_0x100000", "boundary_atom_len_0x8000000"],
         "rule": "Trees/DAGs of all generator shapes (random, 100k-deep spines, doubling DAGs, wide lists, repeats) with atoms at every length-prefix boundary (0x3f/0x40, 0x1fff/0x2000, 0xfffff/0x100000 and, as single directed atoms, "
@@ -170,7 +170,7 @@ PROPS = {
     },
     "C16": {
         "variants": {"quick": ["rel", "asan"], "thorough": ["rel", "asan", "miri"]},
-        "budget_s": (40, 1500),
+        "budget_s": (40, 320),
         "total": True,
         "exhaustive_key": "exhaustive_all_bytes",
         "min_nontrivial": {"quick": 5000, "thorough": 50000},
@@ -183,7 +183,7 @@ PROPS = {
     },
     "C17": {
         "variants": {"quick": ["rel"], "thorough": ["rel", "miri"]},
-        "budget_s": (30, 1500),
+        "budget_s": (30, 300),
         "min_nontrivial": {"quick": 2000, "thorough": 20000},
         "must_observe": ["salted_serializations", "bytes_saved_by_backrefs"],
         "rule": "Trees with many repeated sub-trees at varying depths, repeated big atoms, and 'threshold' trees (a repeated sub-tree of serialized length 2..8 at stack distance 0..70, i.e. where a back-reference stops paying and where paths cross 1->2->3 byte "
@@ -193,7 +193,7 @@ PROPS = {
     },
     "C18": {
         "variants": {"quick": ["rel", "dbg", "asan"], "thorough": ["rel", "dbg", "asan", "miri"]},
-        "budget_s": (40, 1500),
+        "budget_s": (40, 320),
         "total": True,
         "min_nontrivial": {"quick": 5000, "thorough": 50000},
         "must_observe": ["exhaustive_dense_alphabet", "accepted_by_all", "rejected_inputs_with_backref_token"],
@@ -207,7 +207,7 @@ PROPS = {
         "wheel": True,
         "log": True,
         "py": "pymon.wheelmon C26",
-        "budget_s": (25, 1200),
+        "budget_s": (25, 300),
         "min_nontrivial": {"quick": 5000, "thorough": 50000},
         "must_observe": ["run_ok", "run_err", "run_undecodable", "deser_accepted", "deser_rejected", "wheel_tree_hashes"],
         "rule": "The Rust harness logs, for generated cases, what the Rust core does: run_program exactly as wheel/src/api.rs sets it up (flags = from_bits_truncate(word) for arbitrary 32-bit words incl. unknown bits, 500,000,000-byte allocator iff LIMIT_HEAP, both inputs decoded with "
@@ -221,7 +221,7 @@ PROPS = {
         "wheel": True,
         "py": "pymon.wheelmon C27",
         "py_only": True,
-        "budget_s": (60, 1500),
+        "budget_s": (60, 480),
         "min_nontrivial": {"quick": 500, "thorough": 5000},
         "must_observe": ["wrapper:Fresh(.pair builds new children)", "wrapper:LazyNode(deser_legacy)", "wrapper:Program.to", "wrapper:CLVMTree"],
         "rule": "Random trees/DAGs (1-250 pair constructions, shared and unshared) wrapped in every storage the wheel ships or accepts: Program.to, plain python objects, CLVMTree, LazyNode from deser_legacy/deser_backrefs/deser_2026 and from a program result, Program.wrap(LazyNode), "
@@ -234,7 +234,7 @@ PROPS = {
         "wheel": True,
         "log": True,
         "py": "pymon.wheelmon C28",
-        "budget_s": (25, 1200),
+        "budget_s": (25, 300),
         "min_nontrivial": {"quick": 5000, "thorough": 50000},
         "must_observe": ["stream_decode_accepted", "stream_decode_rejected", "serializer_cases", "int_cases", "curry_cases", "triple_parser_cases", "boundary_atoms"],
         "rule": "Rust log: classic decoder on every dense-alphabet string up to length 5, long-length-prefix probes, mutated/valid/random blobs; node_to_bytes of generated trees; new_number bytes for every integer in [-40000,40000), word boundaries and random big values. Python side: "
@@ -244,7 +244,7 @@ PROPS = {
     },
     "C29": {
         "variants": REL,
-        "budget_s": (30, 1200),
+        "budget_s": (30, 300),
         "min_nontrivial": {"quick": 2000, "thorough": 20000},
         "must_observe": ["limit_on_token_boundary"],
         "rule": "Trees incl. threshold trees and atoms at prefix boundaries; for serializations <= 300 bytes EVERY limit 0..=len+1, otherwise every token boundary (cons markers, length prefixes) +-1 plus random limits: node_to_bytes_limit / node_to_bytes_backrefs_limit must "
@@ -253,7 +253,7 @@ PROPS = {
     },
     "C19": {
         "variants": {"quick": ["rel", "dbg"], "thorough": ["rel", "dbg", "miri"]},
-        "budget_s": (30, 1500),
+        "budget_s": (30, 300),
         "min_nontrivial": {"quick": 2000, "thorough": 20000},
         "must_observe": ["salted_histories", "histories_with_undo_then_different_add", "histories_with_repeated_sentinels", "outputs_with_backrefs"],
         "rule": "Random add/undo histories (2-14 steps) of the incremental Serializer: every added tree is built from fresh atoms plus sub-trees of earlier additions (forcing back-references across the cut) and contains the sentinel 0-3 times at random leaf "
@@ -264,7 +264,7 @@ PROPS = {
     },
     "C20": {
         "variants": {"quick": ["rel", "asan"], "thorough": ["rel", "asan", "miri"]},
-        "budget_s": (30, 1500),
+        "budget_s": (30, 300),
         "total": True,
         "min_nontrivial": {"quick": 2000, "thorough": 20000},
         "must_observe": ["cross_decoder_probes", "max_atom_len_probes", "mutated_blob_accepted", "mutated_blob_rejected"],
@@ -275,7 +275,7 @@ PROPS = {
     },
     "C21": {
         "variants": {"quick": ["rel"], "thorough": ["rel", "miri"]},
-        "budget_s": (25, 1500),
+        "budget_s": (25, 300),
         "exhaustive_key": "exhaustive_encodings",
         "min_nontrivial": {"quick": 100000, "thorough": 1000000},
         "must_observe": ["exhaustive_encodings", "exhaustive_values", "width_boundary_values", "truncated_inputs", "overlong_encodings_checked"],
@@ -286,7 +286,7 @@ PROPS = {
     },
     "C22": {
         "variants": REL,
-        "budget_s": (25, 1200),
+        "budget_s": (25, 300),
         "min_nontrivial": {"quick": 2000, "thorough": 20000},
         "must_observe": ["small_int_cases", "parse_triples_node_hashes"],
         "rule": "Every integer 0..300 in canonical, zero-padded and single-byte form (alone and inside shared pairs) and random trees/DAGs with atoms in all representations: the harness's recursive-definition hash (sha2 crate, memoised) is compared with "
@@ -296,7 +296,7 @@ PROPS = {
     },
     "C23": {
         "variants": REL,
-        "budget_s": (25, 1200),
+        "budget_s": (25, 300),
         "min_nontrivial": {"quick": 2000, "thorough": 20000},
         "must_observe": ["shape_single_atom", "shape_complete_shared", "shape_shared_pairs_then_blob", "shape_random_tree"],
         "rule": "Single atoms of 0..4,000,000 bytes, huge atoms beside/below shared small pairs, complete trees of depth 1..16 (shared and unshared, leaf sizes 0/1/2/100), random trees/DAGs with atoms up to 60 KB; for each tree and {old,new} cost model x {GC off,on}: "
@@ -305,7 +305,7 @@ PROPS = {
     },
     "C24": {
         "variants": {"quick": ["rel"], "thorough": ["rel", "miri"]},
-        "budget_s": (25, 1200),
+        "budget_s": (25, 300),
         "min_nontrivial": {"quick": 2000, "thorough": 20000},
         "rule": "Trees/DAGs with heavy structural sharing, unshared deep copies placed next to the original (equal sub-trees that are different nodes), equal atoms stored as separate nodes in different representations (inline, forced heap, view, concat): intern_tree must "
                 "give the same tree/serialisation/hash, pairwise distinct atoms and pairwise distinct pairs, counts equal to an independent hash-consing census of the model and never above the source's node counts. Non-trivial: source has duplicate atoms or sub-trees.",
@@ -313,7 +313,7 @@ PROPS = {
     },
     "C25": {
         "variants": {"quick": ["rel", "dbg", "asan"], "thorough": ["rel", "dbg", "asan", "miri"]},
-        "budget_s": (25, 1200),
+        "budget_s": (25, 300),
         "total": True,
         "min_nontrivial": {"quick": 5000, "thorough": 50000},
         "rule": "Untyped random trees as programs, typed programs mutated 1-3 times, typed programs with big atoms, x random flag sets x budgets {0,1,10,1e4,1.1e7,1.1e10}; plus every ChiaDialect operator called "
@@ -323,7 +323,7 @@ PROPS = {
     },
     "C30": {
         "variants": REL,
-        "budget_s": (25, 1200),
+        "budget_s": (25, 300),
         "min_nontrivial": {"quick": 2000, "thorough": 20000},
         "rule": PROG + "without guards, restricted to the vocabulary common to both dialects (programs/envs containing 36, 48, 62, 63 or a 4-byte secp opcode anywhere are skipped), run on ChiaDialect(F) and on "
                 "RuntimeDialect(standard table: the 44 names of f_table.rs at their ChiaDialect opcodes, secp only when ENABLE_SECP_OPS; quote 1, apply 2) with the same effective flags; F without ENABLE_GC/DISABLE_OP/"
@@ -332,7 +332,7 @@ PROPS = {
     },
     "C31": {
         "variants": REL,
-        "budget_s": (25, 1200),
+        "budget_s": (25, 300),
         "min_nontrivial": {"quick": 500, "thorough": 5000},
         "must_observe": ["guards_completed_exempt", "guards_completed_exact_cost", "depth_boundary_cases"],
         "rule": "Guard towers of depth 1..25 built bottom-up with measured exact costs (5 inner bodies x {old, new model, GC} x LIMIT_SOFTFORK on/off: success expected iff not (LIMIT_SOFTFORK and depth>20)) and typed random programs "
@@ -342,7 +342,7 @@ PROPS = {
     },
     "C04": {
         "variants": REL,
-        "budget_s": (60, 1500),
+        "budget_s": (60, 480),
         "min_nontrivial": {"quick": 200, "thorough": 2000},
         "must_observe": ["gc_restore_noreplace", "gc_restore_replace", "gc_restore_aborted"],
         "rule": "Typed random ChiaDialect programs (GC-heavy profile: 0.3-2 KiB atoms, concat/sha256/strlen garbage inside "
@@ -357,7 +357,7 @@ PROPS = {
         "variants": REL,
         "log": True,
         "py": "pymon.c32check",
-        "budget_s": (25, 1500),
+        "budget_s": (25, 300),
         "min_nontrivial": {"quick": 2000, "thorough": 20000},
         "must_observe": ["sha256:ok", "keccak256:ok", "coinid:ok", "coinid:reject", "g1_multiply:ok", "g2_add:ok", "g1_negate:reject", "g2_negate:ok", "pubkey_for_exp:ok", "bls_verify:ok", "bls_verify:verify-fail",
                          "bls_pairing_identity:ok", "secp256k1_verify:ok", "secp256k1_verify:verify-fail", "secp256r1_verify:ok", "openssl_cross_checks", "g1_map_output_is_subgroup_point", "g2_map_default_dst_checked"],
